@@ -67,6 +67,36 @@ Qed.
 Lemma prim_hash ia sa x : hash (Build_obj ia (VPrim sa (CvVal x))) = py_hash x.
 Proof. reflexivity. Qed.
 
+
+(* ---- primitive cdata that do not convert to an ordinary Python value *)
+(* long double (convert_to_object gives a cdata again): every comparison with a non-pointer-like
+   operand raises NotImplementedError, whichever side it is on; the hash is that of its own storage *)
+Lemma prim_cdata_compare_l ia ib sa (w : value) op :
+  is_ptr w = false ->
+  richcompare (Build_obj ia (VPrim sa CvCData)) (Build_obj ib w) op = RErr NotImplementedError.
+Proof.
+  intros Hw. unfold Model.richcompare, reflected_first; cbn.
+  destruct w as [t b|sb cb|y]; cbn in *; try discriminate; reflexivity.
+Qed.
+Lemma prim_cdata_compare_r ia ib sa x op :
+  richcompare (Build_obj ia (VPy x)) (Build_obj ib (VPrim sa CvCData)) op = RErr NotImplementedError.
+Proof. unfold Model.richcompare, reflected_first; cbn. reflexivity. Qed.
+Lemma prim_cdata_hash ia sa : hash (Build_obj ia (VPrim sa CvCData)) = HOk (hash_pointer sa).
+Proof. reflexivity. Qed.
+
+(* a primitive whose conversion raises (e.g. a char32_t beyond 0x10FFFF): comparisons with it on the
+   left and hash() raise that error; nothing is ever equal to it, so the implication holds vacuously *)
+Lemma prim_converr_compare_l ia ib sa (w : value) op :
+  is_ptr w = false ->
+  richcompare (Build_obj ia (VPrim sa CvErr)) (Build_obj ib w) op = RErr ConvError.
+Proof.
+  intros Hw. unfold Model.richcompare, reflected_first; cbn.
+  destruct w as [t b|sb cb|y]; cbn in *; try discriminate; reflexivity.
+Qed.
+Lemma prim_converr_hash ia sa : hash (Build_obj ia (VPrim sa CvErr)) = HErr ConvError.
+Proof. reflexivity. Qed.
+
+
 (* ---- mixed pointer-like / anything else: NotImplemented on both sides, i.e. identity *)
 Lemma mixed_compare (a b : obj) op :
   is_ptr (oval a) <> is_ptr (oval b) -> is_cdata (oval a) = true \/ is_cdata (oval b) = true ->
